@@ -4,6 +4,7 @@ From LV.Checks Require Import C01Hold C01Agree.
 From LVGen Require Import GenLayerShared.
 From LVGen Require GenLayerSharedImp.
 From LV Require LayerSboms LayerSbomsFacts LayerSharedFacts LayerSharedGone LayerSharedTotal WriteLayerFacts ReplaceMetaFacts RecreateFacts Determinism.
+From LV Require FSInv FSFacts.
 From Coq Require Import String.
 Open Scope string_scope.
 Open Scope N_scope.
@@ -253,3 +254,61 @@ Theorem c01_recreate_exact :
       (forall q, owned (map LV.LayerSbomsFacts.sbom_suffix_of LVGen.GenLayerSharedImp.SBOM_FORMATS) layers n q = false -> pget q s1 = pget q s).
 Proof. intros T enc lcm layers n s. exact (LV.RecreateFacts.recreate_exact enc lcm layers n s). Qed.
 Print Assumptions c01_recreate_exact.
+
+(* the hypotheses of c01_recreate_exact are satisfiable: /l/x is a mode-000 directory holding a file, a nested
+   read-only directory and a symlink leading out of the layer, with a stale x.toml and a stale CycloneDX SBOM
+   beside it and a sibling layer y; the two regenerated functions turn it into exactly a fresh x and x.toml
+   with y, y.toml and y's file as they were *)
+Definition ex_old_layer : fs :=
+  [ ([], Dir 493); ([[108]], Dir 493); ([[108]; [120]], Dir 0);
+    ([[108]; [120]; [102]], File 0 (Raw [1]));
+    ([[108]; [120]; [100]], Dir 365); ([[108]; [120]; [100]; [103]], File 292 (Raw []));
+    ([[108]; [120]; [107]], Link [47; 101; 116; 99]);
+    ([[108]; [120; 46; 116; 111; 109; 108]], File 420 (Raw [3]));
+    ([[108]; [120; 46; 115; 98; 111; 109; 46; 99; 100; 120; 46; 106; 115; 111; 110]], File 420 (Raw [9]));
+    ([[108]; [121]], Dir 493); ([[108]; [121]; [102]], File 420 (Raw [7]));
+    ([[108]; [121; 46; 116; 111; 109; 108]], File 420 (Raw [4])) ].
+
+Example c01_recreate_nonvacuous :
+  LV.LayerSharedFacts.valid_path [[108]] /\ LV.FSFacts.valid_name [120] = true /\
+  LV.LayerSharedFacts.valid_fs ex_old_layer /\ LV.LayerSharedGone.parent_closed ex_old_layer /\
+  LV.LayerSharedTotal.layers_ok ex_old_layer [[108]] /\ LV.Determinism.simple_dir ex_old_layer [[108]] /\
+  (exists m, pget ([[108]] ++ [[120]]) ex_old_layer = Some (Dir m)) /\
+  (forall m, pget ([[108]] ++ [toml_name [120]]) ex_old_layer <> Some (Dir m)) /\
+  (forall sx m, In sx (map LV.LayerSbomsFacts.sbom_suffix_of LVGen.GenLayerSharedImp.SBOM_FORMATS) ->
+     pget ([[108]] ++ [sbom_name [120] sx]) ex_old_layer <> Some (Dir m)) /\
+  (let '(s1, r1) := LVGen.GenLayerSharedImp.gen_delete_layer [[108]] [120] ex_old_layer in
+   let '(s2, r2) := LVGen.GenLayerSharedImp.gen_write_layer (fun _ : unit => TTbl []) [[108]] [120] tt s1 in
+   r1 = Ok tt /\ r2 = Ok tt /\
+   s2 = [ ([], Dir 493); ([[108]], Dir 493);
+          ([[108]; [121]], Dir 493); ([[108]; [121]; [102]], File 420 (Raw [7]));
+          ([[108]; [121; 46; 116; 111; 109; 108]], File 420 (Raw [4]));
+          ([[108]; [120]], Dir mode_dir_default);
+          ([[108]; [120; 46; 116; 111; 109; 108]], File mode_file_default (Doc (TTbl []))) ]).
+Proof.
+  split; [repeat constructor|]. split; [reflexivity|].
+  assert (Keys : forall q, pget q ex_old_layer <> None -> In q (map fst ex_old_layer)).
+  { intros q H. apply FSInv.in_keys_pget in H. exact H. }
+  split.
+  { intros q H. apply Keys in H. cbn in H. repeat (destruct H as [<-|H]; [repeat constructor|]). contradiction. }
+  split.
+  { intros q n H. apply Keys in H. cbn [In map fst ex_old_layer] in H.
+    assert (X : forall key, key = q ++ [n] -> key <> [] /\ q = removelast key).
+    { intros key E. split; [intros ->; destruct q; discriminate|rewrite E, removelast_last; reflexivity]. }
+    repeat (destruct H as [E|H]; [apply X in E as [NE ->]; try congruence; cbn; eexists; reflexivity|]).
+    contradiction. }
+  split.
+  { split.
+    - intros k Hk. destruct k as [|k]; [exists 493; split; reflexivity|cbn in Hk; lia].
+    - exists 493. repeat split; reflexivity. }
+  split.
+  { constructor.
+    - repeat constructor.
+    - intros k Lk. destruct k as [|[|k]]; [eexists; split; reflexivity|eexists; split; reflexivity|cbn in Lk; lia].
+    - eexists; repeat split; reflexivity. }
+  split; [eexists; reflexivity|].
+  split; [intros m H; vm_compute in H; discriminate|].
+  split.
+  { intros sx m Hin H. cbn in Hin. repeat (destruct Hin as [<-|Hin]; [vm_compute in H; discriminate|]). contradiction. }
+  vm_compute. repeat split; reflexivity.
+Qed.
